@@ -49,6 +49,12 @@ type Op struct {
 	// DelayUs: the source takes this long to answer the backlog request
 	// (sub), resp. Stop is called this long after the op starts (astop).
 	DelayUs int `json:"delay_us,omitempty"`
+	// Gate (sub): while the manager is inside NotificationsSinceHeight the
+	// source offers the next event to the handler (bounded wait) and only
+	// then returns the backlog as of BEFORE that event.  Taking the backlog
+	// and joining the fan-out set must be one handler step, so the event
+	// can only be accepted after the registration.
+	Gate bool `json:"gate,omitempty"`
 }
 
 // SubObs is what was observed for one `sub` op.
@@ -88,16 +94,29 @@ type source struct {
 	bl map[uint32][]int64
 	er map[uint32]bool
 	dl map[uint32]time.Duration
+	// gate[h]: offer an event from inside the backlog request for h
+	gate map[uint32]bool
+	// entry[h]: events (completed, started) when the backlog request for h
+	// came in: the backlog is a snapshot taken at that emission position
+	entry map[uint32][2]int64
+	r     *runner
 }
+
+const gateWait = 3 * time.Millisecond
 
 func (s *source) Notifications() <-chan blockntfns.BlockNtfn { return s.ch }
 
 func (s *source) NotificationsSinceHeight(h uint32) ([]blockntfns.BlockNtfn, uint32, error) {
 	s.mu.Lock()
 	d := s.dl[h]
+	g := s.gate[h]
+	s.entry[h] = [2]int64{s.r.completed.Load(), s.r.started.Load()}
 	s.mu.Unlock()
 	if d > 0 {
 		time.Sleep(d)
+	}
+	if g {
+		s.r.gateEmit()
 	}
 	s.mu.Lock()
 	defer s.mu.Unlock()
@@ -208,6 +227,8 @@ type runner struct {
 
 	runStart, runLen int64
 	runAt            int
+
+	gateAccepted atomic.Int64
 }
 
 func (r *runner) fail(tag, what string) {
@@ -251,6 +272,28 @@ func (r *runner) sendOne() (int64, bool) {
 			r.fail("handler-blocked", fmt.Sprintf("the handler did not accept event %d within %v although the manager is running (a subscriber is blocking it)", id, sendDeadline))
 		}
 		return id, false
+	}
+}
+
+// gateEmit offers one event from inside NotificationsSinceHeight, for a
+// bounded time.  Only used while no other emitter is active.
+func (r *runner) gateEmit() {
+	if r.stopBegun.Load() {
+		return
+	}
+	id := r.nextID.Add(1)
+	r.started.Add(1)
+	t := time.NewTimer(gateWait)
+	defer t.Stop()
+	select {
+	case r.src.ch <- ntfn(id):
+		r.emitMu.Lock()
+		r.emitted = append(r.emitted, id)
+		r.emitMu.Unlock()
+		r.completed.Add(1)
+		r.actEmit(id)
+		r.gateAccepted.Add(1)
+	case <-t.C:
 	}
 }
 
@@ -307,6 +350,8 @@ func (r *runner) doSub(script int, op Op) {
 	if op.DelayUs > 0 {
 		r.src.dl[h] = time.Duration(op.DelayUs) * time.Microsecond
 	}
+	r.src.gate[h] = op.Gate
+	delete(r.src.entry, h)
 	if op.Fail {
 		r.src.er[h] = true
 	} else if h != 0 {
@@ -324,9 +369,18 @@ func (r *runner) doSub(script int, op Op) {
 	o.RLo = r.completed.Load()
 	ok := withDeadline(callDeadline, func() { sub, err = r.mgr.NewSubscription(h) })
 	o.RHi = r.started.Load()
-	if op.Fail {
-		// leave the failing height failing: heights are unique per sub
+	// The backlog is a snapshot taken when the source was asked: that is
+	// the registration point (tighter bounds than the call bracket).
+	r.src.mu.Lock()
+	if e, seen := r.src.entry[h]; seen {
+		if e[0] > o.RLo {
+			o.RLo = e[0]
+		}
+		if e[1] < o.RHi {
+			o.RHi = e[1]
+		}
 	}
+	r.src.mu.Unlock()
 	if !ok {
 		r.fail("register-hang", fmt.Sprintf("NewSubscription(%d) did not return within %v", h, callDeadline))
 		r.h.Subs = append(r.h.Subs, *o)
@@ -464,8 +518,10 @@ func run(h *History) []c.ImplFailure {
 			h.Det = false
 		}
 	}
-	src := &source{ch: make(chan blockntfns.BlockNtfn), bl: map[uint32][]int64{}, er: map[uint32]bool{}, dl: map[uint32]time.Duration{}}
+	src := &source{ch: make(chan blockntfns.BlockNtfn), bl: map[uint32][]int64{}, er: map[uint32]bool{}, dl: map[uint32]time.Duration{},
+		gate: map[uint32]bool{}, entry: map[uint32][2]int64{}}
 	r := &runner{h: h, src: src, mgr: blockntfns.NewSubscriptionManager(src), stopDoneCh: make(chan struct{})}
+	src.r = r
 	r.mgr.Start()
 
 	nsub := 0
@@ -492,6 +548,9 @@ func run(h *History) []c.ImplFailure {
 		case "join":
 			r.join()
 		case "sub":
+			if op.Gate {
+				r.join()
+			}
 			r.doSub(nsub, op)
 			nsub++
 		case "cancel":
@@ -626,6 +685,7 @@ func genHistory(r *rand.Rand, id int, thorough bool) History {
 	async := r.Intn(100) < 60
 	malformed := r.Intn(100) < 25
 	nsub := 0
+	gateOK := true // false while an asynchronous emitter may be running
 	addSub := func() {
 		op := Op{Kind: "sub", BL: pickBL(r), Mode: pickMode(r)}
 		if r.Intn(12) == 0 {
@@ -633,6 +693,9 @@ func genHistory(r *rand.Rand, id int, thorough bool) History {
 		}
 		if malformed && r.Intn(6) == 0 {
 			op.Fail = true
+		}
+		if gateOK && r.Intn(5) < 2 {
+			op.Gate = true
 		}
 		h.Ops = append(h.Ops, op)
 		nsub++
@@ -666,9 +729,11 @@ func genHistory(r *rand.Rand, id int, thorough bool) History {
 			h.Ops = append(h.Ops, Op{Kind: "emit", N: pickN(r)})
 		case x < 55 && async:
 			h.Ops = append(h.Ops, Op{Kind: "aemit", N: pickN(r)})
+			gateOK = false
 			for k, n := 0, 1+r.Intn(3); k < n; k++ {
 				racing()
 			}
+			gateOK = true // a gated sub joins the emitter first
 			if r.Intn(3) > 0 {
 				h.Ops = append(h.Ops, Op{Kind: "join"})
 			}
@@ -692,6 +757,7 @@ func genHistory(r *rand.Rand, id int, thorough bool) History {
 		}
 	}
 	// Ending.
+	gateOK = false
 	if !stopped {
 		switch x := r.Intn(10); {
 		case x < 4 || !async:
@@ -767,6 +833,13 @@ func corpus() []History {
 			{Kind: "emit", N: 2}, {Kind: "aemit", N: 12}, {Kind: "astop", DelayUs: 5 * k},
 			{Kind: "sub", BL: 300, Mode: "fast"}, {Kind: "join"}}})
 	}
+	// the chain moves while a registration is fetching its backlog: the
+	// block must reach the new subscriber live, after the backlog
+	hs = append(hs, History{Ops: []Op{
+		{Kind: "sub", BL: 2, Mode: "fast"}, {Kind: "emit", N: 15},
+		{Kind: "sub", BL: 5, Mode: "fast", Gate: true}, {Kind: "emit", N: 3},
+		{Kind: "sub", BL: 25, Mode: "slow", Gate: true}, {Kind: "sub", Zero: true, Mode: "never", Gate: true},
+		{Kind: "emit", N: 30}, {Kind: "wake", Sub: 3}, {Kind: "sync"}, {Kind: "stop"}}})
 	// registration failures and use after stop
 	hs = append(hs, History{Ops: []Op{
 		{Kind: "sub", BL: 4, Mode: "fast", Fail: true}, {Kind: "sub", Zero: true, Mode: "fast"}, {Kind: "emit", N: 25},
@@ -868,6 +941,9 @@ func signature(h *History) string {
 			sb.WriteString("j")
 		case "sub":
 			sb.WriteString(map[string]string{"fast": "F", "slow": "S", "never": "N"}[op.Mode])
+			if op.Gate {
+				sb.WriteString("g")
+			}
 		case "cancel":
 			sb.WriteString("c")
 		case "acancel":
@@ -1055,6 +1131,11 @@ func main() {
 			rep.Histogram["case:racing"]++
 		}
 		rep.Histogram["events-emitted"] += len(h.Emitted)
+		for _, op := range h.Ops {
+			if op.Kind == "sub" && op.Gate {
+				rep.Histogram["sub:gated-backlog-request"]++
+			}
+		}
 		path := filepath.Join(a.Out, fmt.Sprintf("hist-%d.json", h.ID))
 		c.WriteJSON(path, h)
 		rep.Cases[fmt.Sprint(h.ID)] = path
